@@ -428,7 +428,14 @@ def parse_reply(v: int, ptype: int, payload: bytes,
         except UnicodeDecodeError:
             raise WireError('status text not UTF-8', 'status-text') from None
 
-        if v < 6:
+        if v >= 5 and out['code'] == 16:
+            # SSH_FX_UNKNOWN_PRINCIPAL (draft 05 on): error-specific data,
+            # "zero or more string unknown-name"
+            out['unknown_names'] = []
+
+            while cur.left():
+                out['unknown_names'].append(cur.str('status.unknown-name'))
+        elif v < 6:
             cur.end('STATUS')
     elif ptype == FXP_HANDLE:
         out['handle'] = cur.str('handle')
